@@ -9,7 +9,7 @@ import z3
 
 from parse import Unsupported
 from values import *
-from interp import FnRef, PyFn, normalize
+from interp import FnRef, PyFn, ExtFn, normalize
 
 WS_ASCII = (9, 10, 11, 12, 13, 32)
 
@@ -163,6 +163,13 @@ class FilterIt:
                 return r
 
 
+class PredPat:
+    """single-character pattern given as a predicate"""
+
+    def __init__(s, pr):
+        s.pr = pr
+
+
 class SplitIt:
     """str::split(pat) / split_terminator(pat);  pat = list of code points"""
 
@@ -184,7 +191,9 @@ class SplitIt:
         while s.i + k <= len(s.cs):
             hit = True
             for t in range(k):
-                if not I.branch(v_eq(s.cs[s.i + t][0], s.pat[t])):
+                pt = s.pat[t]
+                cond = pt.pr(s.cs[s.i + t][0]) if isinstance(pt, PredPat) else v_eq(s.cs[s.i + t][0], pt)
+                if not I.branch(cond):
                     hit = False
                     break
             if hit:
@@ -449,11 +458,30 @@ class Models:
             return Slice(out, 0, len(out))
         reg('core::str::<impl str>::as_bytes', as_bytes)
 
-        def trim_end_matches(I, s, ch):
+        def charpred(I, pat):
+            """a `Pattern` argument that matches single characters (char, &[char] / [char; N], closure or fn item
+            taking a char) -> predicate on a code point; None for string patterns"""
+            d = pat if isinstance(pat, (int,)) or is_sym(pat) else deref(pat)
+            if isinstance(d, int) or (is_sym(d) and z3.is_bv(d)):
+                return lambda cp: v_eq(cp, d)
+            if isinstance(d, (Slice, RVec)) or (isinstance(d, Agg) and d.name == '[]'):
+                l, a, b = as_list(d)
+                ps = l[a:b]
+                return lambda cp: v_or(*[v_eq(cp, deref(x)) for x in ps])
+            if isinstance(d, (FnRef, PyFn)) or (isinstance(d, Agg) and d.name.startswith('{closure')):
+                return lambda cp: I.call_closure(Ptr([d], 0), [cp])
+            if isinstance(d, ExtFn):
+                return lambda cp: I.call(d.name, [cp])
+            return None
+
+        def trim_end_matches(I, s, pat):
             s = as_str(s)
+            pr = charpred(I, pat)
+            if pr is None:
+                raise Unsupported('trim_end_matches with a string pattern')
             e = s.e
             for cp, nb in reversed(s.chars()):
-                if I.branch(v_eq(cp, ch)):
+                if I.branch(pr(cp)):
                     e -= nb
                 else:
                     break
@@ -462,14 +490,12 @@ class Models:
 
         def trim_start_matches_slice(I, s, pats):
             s = as_str(s)
-            if is_charpat(pats):
-                ps = [pats]
-            else:
-                l, a, b = as_list(pats)
-                ps = l[a:b]
+            pr = charpred(I, pats)
+            if pr is None:
+                raise Unsupported('trim_start_matches with a string pattern')
             st = s.s
             for cp, nb in s.chars():
-                if I.branch(v_or(*[v_eq(cp, p) for p in ps])):
+                if I.branch(pr(cp)):
                     st += nb
                 else:
                     break
@@ -547,11 +573,15 @@ class Models:
         def is_charpat(p):
             return isinstance(p, int) or (is_sym(p) and z3.is_bv(p))
 
+        def is_predpat(I, p):
+            return not isinstance(p, (Str, OString)) and not isinstance(deref(p), (Str, OString)) and \
+                charpred(I, p) is not None
+
         def ends_with(I, s, p):
             s = as_str(s)
-            if is_charpat(p):
+            if is_predpat(I, p):
                 cs = s.chars()
-                return bool(cs) and I.branch(v_eq(cs[-1][0], p))
+                return bool(cs) and I.branch(charpred(I, p)(cs[-1][0]))
             p = as_str(p)
             if p.len() > s.len() or not s.is_boundary(s.len() - p.len()):
                 return False
@@ -560,9 +590,9 @@ class Models:
 
         def starts_with(I, s, p):
             s = as_str(s)
-            if is_charpat(p):
+            if is_predpat(I, p):
                 cs = s.chars()
-                return bool(cs) and I.branch(v_eq(cs[0][0], p))
+                return bool(cs) and I.branch(charpred(I, p)(cs[0][0]))
             p = as_str(p)
             if p.len() > s.len() or not s.is_boundary(p.len()):
                 return False
@@ -572,7 +602,7 @@ class Models:
         def strip_suffix(I, s, p):
             s = as_str(s)
             if ends_with(I, s, p):
-                n = utf8len_of(I, p) if is_charpat(p) else as_str(p).len()
+                n = as_str(s).chars()[-1][1] if is_predpat(I, p) else as_str(p).len()
                 return Some(s.sub(0, s.len() - n))
             return NONE()
         reg('core::str::<impl str>::strip_suffix', strip_suffix)
@@ -583,27 +613,55 @@ class Models:
         reg('<&str as PartialEq>::eq|<str as PartialEq>::eq',
             lambda I, a, b: str_eq_chars(I, as_str(a).chars(), as_str(b).chars()))
 
+        def find_sub(I, s, pt):
+            """byte offset of the first occurrence of the string pattern pt, or None"""
+            cs = s.chars()
+            ps = pt.chars()
+            off = 0
+            for i in range(len(cs) - len(ps) + 1):
+                if all(cs[i + t][1] == ps[t][1] for t in range(len(ps))) and \
+                        all(I.branch(v_eq(cs[i + t][0], ps[t][0])) for t in range(len(ps))):
+                    return off
+                off += cs[i][1]
+            return None
+
         def contains_char(I, s, ch):
-            for cp, nb in as_str(s).chars():
-                if I.branch(v_eq(cp, ch)):
+            s = as_str(s)
+            pr = charpred(I, ch)
+            if pr is None:
+                return find_sub(I, s, as_str(ch)) is not None
+            for cp, nb in s.chars():
+                if I.branch(pr(cp)):
                     return True
             return False
         reg('core::str::<impl str>::contains', contains_char)
 
         def find_char(I, s, ch):
+            s = as_str(s)
+            pr = charpred(I, ch)
+            if pr is None:
+                r = find_sub(I, s, as_str(ch))
+                return NONE() if r is None else Some(r)
             off = 0
-            for cp, nb in as_str(s).chars():
-                if I.branch(v_eq(cp, ch)):
+            for cp, nb in s.chars():
+                if I.branch(pr(cp)):
                     return Some(off)
                 off += nb
             return NONE()
         reg('core::str::<impl str>::find', find_char)
 
         reg('core::str::<impl str>::lines', lambda I, s: LinesIt(as_str(s)))
-        def patlist(p):
-            return [p] if is_charpat(p) else [c for c, _ in as_str(p).chars()]
-        reg('core::str::<impl str>::split', lambda I, s, p: SplitIt(as_str(s), patlist(p)))
-        reg('core::str::<impl str>::split_terminator', lambda I, s, p: SplitIt(as_str(s), patlist(p), True))
+        def patlist(I, p):
+            if is_charpat(p):
+                return [p]
+            if isinstance(p, (Str, OString)) or isinstance(deref(p), (Str, OString)):
+                return [c for c, _ in as_str(p).chars()]
+            pr = charpred(I, p)
+            if pr is None:
+                raise Unsupported('split pattern')
+            return [PredPat(pr)]
+        reg('core::str::<impl str>::split', lambda I, s, p: SplitIt(as_str(s), patlist(I, p)))
+        reg('core::str::<impl str>::split_terminator', lambda I, s, p: SplitIt(as_str(s), patlist(I, p), True))
         reg('core::str::<impl str>::match_indices', lambda I, s, ch: MatchIdx(as_str(s), ch))
 
         def split_at(I, s, mid):
